@@ -189,17 +189,74 @@ PROP = dict(
     prop_targets=["Properties/C19.vo"],
     cases=dict(quick=1600, thorough=9600),
     level="proof",
-    rule="TODO",
-    class_names={},
+    rule="every case is drawn from the seed: 9 streams -- partition files (5 id families incl. extreme 64-bit ids) and "
+         "malformed partition bytes (7 mutations), weight arrays (int/float, 1..4 criteria and 5..300, one row, empty, "
+         "zero criteria, ragged; non-finite / subnormal / extreme bit patterns) and malformed weight bytes (9 mutations), "
+         "MEDIT meshes written in binary and in ASCII (dimension 1..4, 0..20 nodes, 0..5 blocks of any type in any order incl. "
+         "empty blocks, 6 coordinate families, negative / extreme references, out-of-range node numbers), foreign and "
+         "malformed MEDIT binary files (versions 1..4, both byte orders, 13 mutations), mutated ASCII files (15 mutations: "
+         "case, CRLF/tabs, junk after keywords, skipped sections, missing/extra words, invalid UTF-8, Unicode spaces, ...), "
+         "and format-sniffing buffers (10 families). distinct = distinct input value (write+read cases) or distinct byte "
+         "string (read-only cases); non-trivial = at least 2 ids / at least one weight row / a mesh with nodes and at least "
+         "one block / a byte string longer than the fixed header",
+    class_names={
+        0: "partition write+read: read back Ok", 1: "partition write+read: error", 2: "partition write+read: panic",
+        10: "partition bytes: Ok", 11: "partition bytes: error", 12: "partition bytes: panic",
+        20: "weights in contract: read back Ok", 21: "weights in contract: error", 22: "weights in contract: panic",
+        30: "weights outside contract (empty / 0 criteria / ragged / >65535): Ok", 31: "weights outside contract: error",
+        32: "weights outside contract: panic",
+        40: "weight bytes: Ok", 41: "weight bytes: error", 42: "weight bytes: panic",
+        50: "MEDIT binary, listed block types: read back Ok", 51: "MEDIT binary, listed: error", 52: "MEDIT binary, listed: panic",
+        60: "MEDIT binary with Vertex/Quadrangle blocks or node numbers >= 2^63-1: Ok", 61: "same: error", 62: "same: panic",
+        70: "MEDIT ASCII in contract: read back Ok", 71: "MEDIT ASCII in contract: error", 72: "MEDIT ASCII in contract: panic",
+        80: "MEDIT ASCII outside contract (Vertex block / NaN payload / node number usize::MAX): Ok", 81: "same: error",
+        82: "same: panic",
+        90: "parse_binary on foreign bytes: Ok", 91: "parse_binary: error", 92: "parse_binary: panic",
+        94: "parse_ascii on mutated text: Ok", 95: "parse_ascii: error", 96: "parse_ascii: panic",
+        98: "from_reader on foreign bytes: Ok", 99: "from_reader: error", 100: "from_reader: panic",
+        110: "sniff: neither", 111: "sniff: ascii", 112: "sniff: test_format_ascii panics (slice off a char boundary)",
+        114: "sniff: binary", 115: "sniff: binary and ascii", 116: "sniff: binary, ascii test panics",
+    },
     trusted_base=[
         "axioms: none (every theorem of Properties/C19.v is closed under the global context)",
+        "Rust std `impl Display for f64` / `impl FromStr for f64`: enter medit_ascii_roundtrip as Section variables "
+        "print_f64 / parse_f64 under the per-coordinate hypothesis float_ok x := parse_f64 (print_f64 x) = Some x and the "
+        "printed text is non-empty ASCII without white space (std documents the shortest-representation round trip for every "
+        "finite value; inf / -inf print as `inf` / `-inf` and parse back); in the correspondence run the printed text of every "
+        "coordinate and the parsed value of every word come from the implementation (tables in the case) and the hypothesis "
+        "is re-checked on every case",
+        "case files carry bytes packed 7 per primitive 63-bit integer (Coq Uint63, unpacked by Run/RunC19.unpack under vm_compute); "
+        "used by the run glue only, not by any theorem",
+        "modelled, not verified: usize overflow of the byte-position counter of serialize_medit_binary (needs a file of 2^64 bytes); "
+        "an allocation failure (count below the capacity-overflow limit but larger than memory) aborts the process and is not "
+        "modelled -- the read-only streams avoid such counts; line numbers of parse errors are modelled (they steer the "
+        "junk-skipping loop) but error messages are compared by kind only",
+        "BufRead chunking: the models read from one contiguous byte string (what `&[u8]` and Cursor give); with a chunked "
+        "BufReader the token/line readers see the same bytes (UTF-8 validation per chunk can only differ on non-ASCII input)",
     ],
-    assumptions=[],
+    assumptions=[
+        "usize = u64 (the code's own TODO: compile_error when sizeof(usize) < sizeof(u64))",
+        "weight arrays are rectangular with 1 <= criteria <= 65535; arrays without rows are a separate lemma "
+        "(Integers([]) round-trips, Floats([]) is read back as Integers([]): judged outside the property, see docs/C19.md)",
+        "meshes satisfy the invariants of Mesh::from_raw_parts; binary: 1 <= dimension < 2^31, node numbers < 2^63-1; "
+        "ASCII: node numbers < 2^64-1, coordinates whose Display text parses back to the same bits (all non-NaN values)",
+        "in-memory sizes: 8*len <= isize::MAX for every Vec involved (true of any allocated Vec)",
+        "debug profile (overflow checks on): `node + 1`, `x - 1` and `a * b` panic instead of wrapping",
+    ],
 )
 
 MANIFEST = dict(
-    text="TODO",
+    text="Theorems partition_roundtrip, weight_roundtrip_int/float (any 64-bit pattern, 1..65535 criteria), medit_bin_roundtrip "
+         "(+ _exact for the property's block types), sniff_binary_written / sniff_ascii_written and medit_ascii_roundtrip (under "
+         "the named std float hypothesis) proved for ALL inputs about byte-level Gallina models of partition.rs, weight.rs, "
+         "medit/serializer.rs, medit/parser.rs and the sniffing of lib.rs; magic strings, version, flag bit, criterion bound, "
+         "MEDIT codes, node counts, keyword and name tables are re-read from the Rust source on every run; implementation and "
+         "model are compared byte for byte (writers) and value for value (readers, incl. foreign/malformed files) on generated "
+         "cases, and a checker compares what the implementation read back with what it wrote.",
     design_ref="DESIGN.md §7 C19",
-    note="TODO",
-    technique="Coq proof + model/implementation correspondence at byte level + certified checker",
+    note="Trusted: Coq kernel; the model<->code tie is the translator (tables/literals) plus differential runs (1.6k/9.6k cases); "
+         "Rust std f64 Display/FromStr round trip for the ASCII coordinates (hypothesis, re-checked per case). No axioms. "
+         "Stated normalisations: Vertex blocks are not written; Quadrangle is read back as Quadrilateral in binary; ASCII "
+         "loses NaN payloads; Floats([]) reads back as Integers([]).",
+    technique="Coq proof (byte-level codecs, induction over rows/blocks/lines) + translator + model/implementation correspondence + checker",
 )
